@@ -191,10 +191,21 @@ def rule_h3(repo, col, root):
             raise AnalysisError("%s.__hash__: single return expected" % cname)
         hs = norm(he)
         selfp, otherp = e.params[0], e.params[1]
-        rets = [r for r in walk_no_nested(e.node) if isinstance(r, ast.Return) and r.value is not None]
+        # returned expressions with single-assignment temporaries read through (decision-table paths carry the substituted text)
+        from .. import dtable as _dt
+        rets = []
+        for p_ in _dt.extract(e.node, opaque_loops=True):
+            if p_.end == "return" and p_.value is not None:
+                try:
+                    rv = ast.parse(p_.value, mode="eval").body
+                except SyntaxError:
+                    raise AnalysisError("%s.__eq__: return value not parseable" % cname)
+                if norm(rv) not in [norm(x) for x in rets]:
+                    rets.append(rv)
         if not rets:
             raise AnalysisError("%s.__eq__: no return" % cname)
-        for r in rets:
+        for rv in rets:
+            r = ast.Return(value=rv)
             es = norm(r.value)
             ok = None
             why = ""
